@@ -10,9 +10,9 @@
    NOT proved, and false of the code on the recorded classes KF-C10-A/B/C/E: that the floating-point
    values returned are accurate roots; that Laguerre's iteration converges.  Those halves are covered by
    the bit-for-bit tie and the failing-input search of driver/c10.py. *)
-From Coq Require Import List Arith Floats.
+From Coq Require Import List Arith.
 From OV Require Import Base.Panic Base.Arith gen.Params Model.Roots
-                       Proofs.Roots Proofs.RootsMore Proofs.RootsRing Proofs.RootsField Proofs.RootsExamples.
+                       Proofs.Roots Proofs.RootsMore Proofs.RootsSafe Proofs.RootsRing Proofs.RootsField Proofs.RootsExamples.
 Import ListNotations.
 
 (* ================= any arithmetic (floats with any oracle table included) ================= *)
@@ -43,8 +43,7 @@ Check laguer_bounded : forall (RA : RootArith) a x l,
   laguer RA a x = Ok l -> liters l <= LAGUER_MT * LAGUER_MR - 1.
 Print Assumptions laguer_bounded.
 Example laguer_bounded_nonvacuous :
-  exists l, laguer (FloatRA tbl_1234) (map (fun c => @Complex.mkC Inst.FloatInst.AF c 0%float) p1234)
-                   (@Complex.mkC Inst.FloatInst.AF 0%float 0%float) = Ok l
+  exists l, laguer (FloatRA tbl_1234) c1234 cz0 = Ok l
             /\ lwhy l = Converged /\ liters l = 4.
 Proof. exact ex_laguer_float. Qed.
 
@@ -117,6 +116,7 @@ Theorem snap_cases : forall (RA : RootArith) (x : KK RA), snap RA x = x \/ snap 
 Proof. intros RA x. exact (snap_cases_lemma RA x). Qed.
 Check snap_cases : forall (RA : RootArith) (x : KK RA), snap RA x = x \/ snap RA x = mkk RA (kre RA x) zero.
 Print Assumptions snap_cases.
+
 
 (* ================= any commutative ring on KK (nothing assumed of RR, of the oracles, of the tests) ================= *)
 
@@ -276,3 +276,20 @@ Proof. exact ex_cubic7. Qed.
 (* 2 (x-1)^3 over GF(7): the triple-root branch *)
 Example cubic_factors_triple_nonvacuous : cubic_solve (RA7 f0) (f2 : A7) f1 f6 f5 = Ok [f1; f1; f1].
 Proof. exact ex_triple7. Qed.
+
+(* ================= the float instance ================= *)
+(* (last in the file: its Print Assumptions lists Coq's primitive-float constants, which are not axioms of this development) *)
+(* index safety of the float instance, whatever the three libm-backed primitives return (ANY oracle table), for every
+   nonempty coefficient list and both refinement settings: no Vec access of poly_solve / laguer / the deflation is out
+   of bounds (frac[iter / MT] included: frac[] has MR + 1 entries, regenerated from the source) and no usize subtraction
+   underflows.  With roots_length / degree0_rejected: the ONLY panic of Polynomial::roots is the degree-0 guard
+   (the empty coefficient list underflows in `coeffs.size() - 1`: empty_rejected_lemma). *)
+Theorem float_roots_memory_safe : forall (tbl : list PrimFloat.float) coeffs refine,
+  coeffs <> [] ->
+  poly_solve (FloatRA tbl) coeffs refine <> Panic Index /\ poly_solve (FloatRA tbl) coeffs refine <> Panic Underflow.
+Proof. intros tbl coeffs refine. exact (float_roots_memory_safe_both tbl coeffs refine). Qed.
+Check float_roots_memory_safe : forall (tbl : list PrimFloat.float) coeffs refine,
+  coeffs <> [] ->
+  poly_solve (FloatRA tbl) coeffs refine <> Panic Index /\ poly_solve (FloatRA tbl) coeffs refine <> Panic Underflow.
+Print Assumptions float_roots_memory_safe.
+
